@@ -106,7 +106,11 @@ fn lost_boundary_cell(method: &str, status: u16, before: &[&str], after: &[&str]
     if p >= h.len() {
         return Ok(None);
     }
-    let mut f = crate::props::flows::recv_response_flow(method);
+    let mut rc = crate::driver::ReqCfg::new(method, "1.1", "http://a.test/p");
+    if crate::refmodel::reqvalid::needs_body(method) {
+        rc = rc.orig("content-length", "0");
+    }
+    let mut f = crate::props::flows::recv_response_flow_cfg(&rc).map_err(|e| ("C10:lost-boundary:harness".to_string(), e))?;
     let (n, resp) = match f.try_response(&h[..p]) {
         Err(_) => return Ok(Some("error".into())),
         Ok(x) => x,
